@@ -322,6 +322,8 @@ def run_paths(
                     undecided.append(t)
             else:
                 allowed = evl._truth(v)
+                if node.kind == 'loop_test' and allowed and used.get(node.id, 0) >= loop_bound:
+                    allowed = False  # iteration bound reached: leave the loop
         elif node.kind == 'for':
             new_eff.extend(effect_fn(node, evl))
             if for_iter is not None:
